@@ -50,8 +50,14 @@ def special_u(rng, n):
 def event_job(job):
     rng = np.random.default_rng(job["seed"])
     ev = []
+    # every geometry object of the job exists before the first one is thrown, and another object at a far-away detector position is
+    # built right after each: an object's trajectories are its own configuration's, whatever other objects the process holds
+    built = []
+    for spec in job["specs"]:
+        built.append(make_geom(spec))
+        make_geom(dict(spec, dlat=float(spec.get("dlat", 0.0)) * -0.5 + 0.61, dlon=float(spec.get("dlon", 0.0)) + 2.3, alt=spec["alt"] * 1.7 + 11.0))
     for si, spec in enumerate(job["specs"]):
-        g, cfg = make_geom(spec)
+        g, cfg = built[si]
         c = region_of(g, cfg)
         u = special_u(rng, job["n"])
         ubuf = u.copy()                 # ONE argument array for both throws of this object (refilled in between)
@@ -66,6 +72,23 @@ def event_job(job):
                        "mcnorm": bits(g.mcnorm),
                        "_m": dict(spec, u=[float(x) for x in u[:, i]], l=float(g.losPathLen[i]), beta_deg=float(g.betaTrSubN[i]),
                                   mask=bool(g.event_mask[i]))})
+        # small batches (1 .. 5 trajectories; 4 = as many as a trajectory has random numbers) of interior points on the same object
+        for k in (1, 2, 3, 4, 5):
+            us = np.ascontiguousarray(u[:, -(k + 7):-7])
+            g.throw(us.copy())
+            if len(g.losPathLen) != k:
+                ev.append({"kind": "ret", "nkept": k, "nret": int(len(g.losPathLen)), "_m": dict(spec, small_batch=k)})
+                continue
+            for i in range(k):
+                ev.append({"kind": "ev", "c": c, "dlat": bits(dlat), "dlon": bits(dlon), "u": bits_array(us[:, i]), "ser": ser,
+                           "theta": bits(g.thetaTrSubV[i]), "cosTrV": bits(g.costhetaTrSubV[i]), "phi": bits(g.phiTrSubV[i]), "phiS": bits(g.phiS[i]),
+                           "l": bits(g.losPathLen[i]), "cosNV": bits(g.costhetaNSubV[i]), "cosTrN": bits(g.costhetaTrSubN[i]),
+                           "betaDeg": bits(g.betaTrSubN[i]), "latS": bits(g.latS[i]), "lonS": bits(g.longS[i]), "mask": bool(g.event_mask[i]),
+                           "mcnorm": bits(g.mcnorm),
+                           "_m": dict(spec, u=[float(x) for x in us[:, i]], l=float(g.losPathLen[i]), beta_deg=float(g.betaTrSubN[i]),
+                                      mask=bool(g.event_mask[i]), small_batch=k)})
+        ubuf[...] = u
+        g.throw(ubuf)
         m = np.asarray(g.event_mask)
         nv = int(m.sum())
         if nv:
